@@ -29,7 +29,7 @@ with open('/verif/seeded/RESULTS.md', 'w') as f:
         f.write('| %s | %s | %s |\n' % (sid, s, '<br>'.join(hist) or '(not run yet)'))
     # summary per round: outcome of the FIRST run of the property's own check, and of the LAST one
     f.write('\n### Summary by round (own check of the seeded property; first run / latest run)\n\n| round | seeds | first run: replay | first run: no-failing-input-found | first run: missed | latest run: replay | latest: no-failing-input-found | latest: missed | not run |\n|---|---|---|---|---|---|---|---|---|\n')
-    for rd in range(1, 6):
+    for rd in range(1, 7):
         sel = [r for r in rows if (int(r[0].split('-')[1]) - 1) // 3 + 1 == rd]
         def cnt(i, key): return sum(1 for r in sel if r[3] and r[3][i].startswith(key))
         f.write('| %d | %d | %d | %d | %d | %d | %d | %d | %d |\n' % (rd, len(sel), cnt(0, 'VIOLATION+replay'), cnt(0, 'VIOLATION no-'), cnt(0, 'MISSED'),
